@@ -299,6 +299,9 @@ class AttributeCollection(MutableMapping[int, Attribute]):
                             ],
                         ),
                     ],
+                    # held in 4-byte form: a local AS above 65535 cannot be packed in 2 bytes, and
+                    # pack_attribute() turns it into AS_TRANS + AS4_PATH for a 2-byte peer
+                    asn4=True,
                 )
             ),
             Attribute.CODE.LOCAL_PREF: lambda left, right: LocalPreference.from_int(100) if left == right else NOTHING,
